@@ -362,6 +362,7 @@ Proof. intros s. unfold read_bytes. solveH. Qed.
 Lemma allQ_convert_gen : forall dest (ch : bool) r s, allQ (if ch then 1 else 0) s (convert orc fx ch r dest s).
 Proof.
   induction dest; intros ch r s; destruct r; destruct ch; cbn [convert]; solveH.
+  all: try (match goal with |- allQ _ _ (match reach_of ?x with _ => _ end) => destruct (reach_of x) end; solveH).
   all: match goal with |- allQ _ ?s0 (bnd (convert _ _ false _ ?e ?x) _) =>
          eapply allQ_bnd_ex; [eapply (allQ_weaken _ _ _ _ s0 x); [solveQ|apply (IHdest false)]|intros ? ? ?|num] end.
   all: solveH.
